@@ -1,6 +1,6 @@
 /* C06 correspondence harness: wrapper TU around the real ev.c (current working tree) so that the file-static channel
  * structures, the run queue and the janet_q_* ring buffers are readable, with a VIRTUAL CLOCK (every clock read is
- * 1 ms later than the previous one) and a non-blocking poll: the event loop never sleeps, and "the loop went to poll
+ * VCLOCK_STEP ms later than the previous one) and a non-blocking poll: the event loop never sleeps, and "the loop went to poll
  * with nothing that could ever wake it" becomes a logical, wall-clock-free observation (`idle-forever`).
  *
  * stdin protocol:
@@ -19,13 +19,15 @@
 #include <stdarg.h>
 
 /* ---- virtual time / poll ------------------------------------------------------------------------------------- */
-static int64_t vclock_ms = 100000;
+#define VCLOCK_START 100000
+#define VCLOCK_STEP 16
+static int64_t vclock_ms = VCLOCK_START;
 static int idle_forever = 0;
 static int polls = 0;
 
 int verif_clock_gettime(clockid_t id, struct timespec *ts) {
     (void) id;
-    vclock_ms += 1;
+    vclock_ms += VCLOCK_STEP;
     ts->tv_sec = vclock_ms / 1000;
     ts->tv_nsec = (vclock_ms % 1000) * 1000000;
     return 0;
@@ -79,7 +81,8 @@ static void canon(Janet x) {
     }
     if (janet_checktype(x, JANET_STRING)) {
         const char *s = (const char *) janet_unwrap_string(x);
-        lput(strstr(s, "closed channel") ? "err-closed" : "err-other");
+        lput(strstr(s, "closed channel") ? "err-closed" : !strcmp(s, "cancelled") ? "err-cancel" :
+             !strcmp(s, "deadline expired") ? "err-deadline" : !strcmp(s, "timeout") ? "err-timeout" : "err-other");
         return;
     }
     lput("?%d", (int) janet_type(x));
@@ -128,7 +131,9 @@ static void dump_state(void) {
             if (janet_vm.tq[i].when > last && (best == n || janet_vm.tq[i].when < janet_vm.tq[best].when)) best = i;
         if (best == n) break;
         last = janet_vm.tq[best].when;
-        lput("%s%d.%u", k ? "," : "", fidx(janet_vm.tq[best].fiber), janet_vm.tq[best].sched_id);
+        JanetTimeout *t = &janet_vm.tq[best];
+        lput("%s%d.%u@%lld%s%s", k ? "," : "", fidx(t->fiber), t->sched_id, (long long) t->when,
+             t->curr_fiber ? (janet_fiber_can_resume(t->curr_fiber) ? "+" : "-") : "", t->is_error ? "!" : "");
     }
     lput("|s=");
     for (int i = 0; i < nfib; i++) lput("%s%u", i ? "," : "", fib[i]->sched_id);
@@ -183,7 +188,7 @@ static const char *status_name(JanetFiber *f) {
 
 static void run_program(const char *id, uint32_t seed, const char *src) {
     lgn = 0; lput("");
-    nfib = 0; nch = 0; idle_forever = 0; polls = 0;
+    nfib = 0; nch = 0; idle_forever = 0; polls = 0; vclock_ms = VCLOCK_START;
     memset(fib, 0, sizeof fib); memset(chs, 0, sizeof chs);
     janet_rng_seed(&janet_vm.ev_rng, seed);
     JanetRNG copy = janet_vm.ev_rng;
